@@ -21,6 +21,8 @@
 #include <stdlib.h>
 #include <string.h>
 #include <stdint.h>
+#include <signal.h>
+#include <setjmp.h>
 
 #include "vmem.h"
 #include GLUE_HEADER
@@ -74,6 +76,13 @@ static void log_hook(const char *name, PSTATE *st, uint8_t inval) {
 
 GLUE_HOOK_DEFS
 
+/* ---- arithmetic traps of the *user's* expressions (integer division by zero): outside the properties, must not kill the
+ *      recorder; the call is reported with rc = -100 and the specification must agree that the step is undefined ---- */
+static sigjmp_buf trap_jb;
+static volatile int trap_armed = 0;
+static void on_fpe(int sig) { (void)sig; if (trap_armed) siglongjmp(trap_jb, 1); _exit(70); }
+#define GUARDED(call, rcvar) do { trap_armed = 1; if (sigsetjmp(trap_jb, 1) == 0) { rcvar = (int)(call); } else { rcvar = -100; } trap_armed = 0; } while (0)
+
 /* ---- exhaustive single-step sweep: every byte (and end-of-input) from one saved context ---- */
 static char obuf[257][1 << 16];
 static int nouts;
@@ -92,6 +101,8 @@ static int outcome_index(int rc, long adv) {
     return nouts++;
 }
 
+static unsigned char sweep_mask[256];   /* which byte values the sweep feeds (all by default) */
+
 static void sweep(void) {
     nouts = 0;
     glue_save(g_state);
@@ -99,22 +110,23 @@ static void sweep(void) {
     glue_dump_outs(g_state, stdout);
     printf("},");
     for (int b = 0; b < 256; b++) {
+        if (!sweep_mask[b]) { oidx[b] = -1; continue; }
         glue_restore(g_state);
         uint8_t *buf = (uint8_t *)(malloc)(1);
         buf[0] = (uint8_t)b;
 #if GLUE_INDIRECT
         const uint8_t *cur = buf;
-        int rc = (int)PFX(feed)(&cur, buf + 1, g_state);
+        int rc; GUARDED(PFX(feed)(&cur, buf + 1, g_state), rc);
         oidx[b] = outcome_index(rc, (long)(cur - buf));
 #else
-        int rc = (int)PFX(feed)(buf, buf + 1, g_state);
+        int rc; GUARDED(PFX(feed)(buf, buf + 1, g_state), rc);
         oidx[b] = outcome_index(rc, -1);
 #endif
         (free)(buf);
     }
 #if GLUE_HAS_END
     glue_restore(g_state);
-    { int rc = (int)PFX(end)(g_state); oidx[256] = outcome_index(rc, 0); }
+    { int rc; GUARDED(PFX(end)(g_state), rc); oidx[256] = outcome_index(rc, 0); }
 #else
     oidx[256] = -1;
 #endif
@@ -146,6 +158,7 @@ static char line[1 << 20];
 
 int main(void) {
     g_state = NULL;
+    signal(SIGFPE, on_fpe);
     while (fgets(line, sizeof line, stdin)) {
         size_t L = strlen(line);
         while (L && (line[L-1] == '\n' || line[L-1] == '\r')) line[--L] = 0;
@@ -160,7 +173,7 @@ int main(void) {
             glue_install_hooks(g_state);
             hooklen = 0; nhooks = 0;
         } else if (cmd == 'S') {
-            int rc = (int)PFX(start)(g_state);
+            int rc; GUARDED(PFX(start)(g_state), rc);
             emit("start", rc, 0);
         } else if (cmd == 'F') {
             size_t n = 0;
@@ -174,16 +187,16 @@ int main(void) {
             const uint8_t *end = buf + n;
 #if GLUE_INDIRECT
             const uint8_t *cur = start;
-            int rc = (int)PFX(feed)(&cur, end, g_state);
+            int rc; GUARDED(PFX(feed)(&cur, end, g_state), rc);
             emit("feed", rc, (long)(cur - start));
 #else
-            int rc = (int)PFX(feed)(start, end, g_state);
+            int rc; GUARDED(PFX(feed)(start, end, g_state), rc);
             emit("feed", rc, -1);
 #endif
             (free)(buf);
         } else if (cmd == 'E') {
 #if GLUE_HAS_END
-            int rc = (int)PFX(end)(g_state);
+            int rc; GUARDED(PFX(end)(g_state), rc);
             emit("end", rc, 0);
 #else
             printf("{\"ev\":\"noend\"}\n"); fflush(stdout);
@@ -197,6 +210,12 @@ int main(void) {
             printf("}}\n");
             fflush(stdout);
         } else if (cmd == 'A') {
+            memset(sweep_mask, 1, sizeof sweep_mask);
+            sweep();
+        } else if (cmd == 'a') {
+            /* sweep only the listed byte values (hex pairs) */
+            memset(sweep_mask, 0, sizeof sweep_mask);
+            for (size_t i = 0; i + 1 < strlen(arg); i += 2) sweep_mask[hexval(arg[i]) * 16 + hexval(arg[i+1])] = 1;
             sweep();
         } else if (cmd == 'Q') {
             g_state->state = (__typeof__(g_state->state))atol(arg);
